@@ -309,7 +309,7 @@ def jobs(tier):
     for N in Ns:
         for fix in (False, True):
             out.append(dict(id='check.N=%d.fix=%s' % (N, fix), func='ob_check', params=dict(N=N, fix=fix), tags=['C17', 'C08'], functions=F, weight=N * 10,
-                            must_reach=['fixed' if fix else 'report_only']))
+                            must_reach=['fixed' if fix else 'report_only'], **({'budget_s': 6000} if N >= 3 else {})))  # three rows: ~35 min
     for b in ('replace', 'delete', 'insert'):
         for fix in (False, True):
             out.append(dict(id='check.intruded.%s.fix=%s' % (b, fix), func='ob_check_intruded', params=dict(b=b, fix=fix), tags=['C17', 'C05'], functions=F + ['core.Cache.set', 'core.Cache.delete'],
